@@ -346,8 +346,14 @@ def run(C, R):
                     R.fail('C01.I6', [fn['path'], 'node-bearing-value-moved', t['str']],
                            '%s holds a by-value temporary of type %s: a future that may be linked is moved (%s)' % (
                                fn['path'], t['str'], why), '%s:%s' % (fn['file'], fn['line']))
-        for fn, t, cl in scan_calls(F, lambda ci: ci['path'] in ('std::mem::swap', 'std::mem::replace', 'std::mem::take')):
-            if any(any(b.split('::')[-1] in a for b in bearing) for a in t['argtys']):
+        # mem::replace / mem::take hand the old value back in a by-value temporary, which the rule above judges
+        # exactly like Option::take (the same operation); mem::swap has no such temporary and is scanned here
+        def _by_value_bearing(a):
+            a2 = a[1:].replace('mut ', '', 1).strip() if a.startswith('&') else a
+            return any(b.split('::')[-1] in a2 for b in bearing) and not any(
+                x in a2 for x in ('NonNull<', '*const ', '*mut ', '&'))
+        for fn, t, cl in scan_calls(F, lambda ci: ci['path'] in ('std::mem::swap',)):
+            if any(_by_value_bearing(a) for a in t['argtys']):
                 R.fail('C01.I6', [fn['path'], t['func']['fn']['path']],
                        '%s uses %s on a node-bearing value' % (fn['path'], t['func']['fn']['path']), F.loc(fn, t['ln']))
         # ---------------- I7 shared futures restore the handle on Pending
